@@ -357,6 +357,7 @@ def run(report, p):
                 r8.check(False, f, c, f"`{norm(c)[:70]}` combines {'the routed history with an unrouted path' if recv_routed else 'an unrouted history with the routed path'}: the path is not relative to the history that is asked", construct=f"lookup {c.func.attr} mixes routed and unrouted history / path")
 
     # ---- rules shared with other properties (same mechanism, same rule, reported under every property it can break)
+    include_rules(report, p, 'c12', ['R12.12'], 'every file is recorded in exactly one history: a pathspec that picks up the patterns of one nested history while the tree is traversed hides matching files of the histories traversed after it')
     include_rules(report, p, 'c10', ['R10.8'], 'the <references> section is the last of a manifest: a reader that leaves its event loop early loses the links to the nested histories')
     include_rules(report, p, 'c05', ['R5.7'], 'every nested ascmhl folder must be discovered as a child history')
     include_rules(report, p, 'c03', ['R3.10'], 'the commit loop and the loader test hash lists for presence')
